@@ -295,7 +295,7 @@ MUST = ['postcondition', 'precondition', 'pointer_dereference', 'loop_invariant_
 
 SCOPES = {
     # C05: everything that states memory safety, termination and the cursor bound; not the all-or-nothing clauses (ensures 4.. of the parse functions)
-    'C05': (r'^(?!.*_parse(Value|Array|Object)\.postcondition\.[4-9]$)(?!.*_Parse\.postcondition\.[2-9]$).*$', 'the all-or-nothing clauses are decided under C07'),
+    'C05': (r'^(?!.*_parse(Value|Array|Object)\.postcondition\.([4-9]|\d\d+)$)(?!.*_Parse\.postcondition\.([2-9]|\d\d+)$).*$', 'the all-or-nothing clauses are decided under C07'),
     # C07: the contract obligations (pre- and postconditions along the recursion); pointer/bounds obligations are C05's
     'C07': (r'(postcondition|precondition)\.\d+$', 'memory-safety obligations of the parser are decided under C05'),
 }
